@@ -66,6 +66,8 @@ def make_spec(seed, rng, k=None, mode=None, N=None, v=None):
         perm = list(range(nk))
         rng.shuffle(perm)
         sched['completion_order'] = perm
+        if feasible(perm, opt['j']):
+            sched['strict'] = True
     elif mode == 'barrier':
         sched['barrier'] = min(opt['j'], nk)
     elif mode == 'stall':
@@ -76,6 +78,12 @@ def make_spec(seed, rng, k=None, mode=None, N=None, v=None):
     knobs = {'pipe_capacity': rng.choice([16, 64, 512, 65536])}
     return {'property': ID, 'seed': seed, 'world': world, 'plan': _ws.order_plan(plan),
             'opt': opt, 'sched': sched, 'knobs': knobs, 'mode': mode}
+
+
+def feasible(perm, N):
+    """Can k children started in index order, at most N at a time, finish in this order?
+    The child finishing at position t must have been started: its index < N + t."""
+    return all(idx < N + t for t, idx in enumerate(perm))
 
 
 def gen(seed):
@@ -99,6 +107,8 @@ def directed(tier, base_seed):
                         spec['opt']['j'] = N
                         spec['opt']['v'] = v
                         spec['sched'] = {'prng': seed, 'completion_order': list(perm)}
+                        if feasible(perm, N):
+                            spec['sched']['strict'] = True
                         yield spec
 
 
@@ -167,8 +177,19 @@ def run(spec, ctx):
                                     'baseline layers %r, children %r' % (base_order,
                                                                          sorted(kids))))
             else:
-                expected = ''.join(kids[l] for l in order)
-                if expected not in ptext:
+                # every child's block must appear unmodified and contiguous, the blocks in
+                # baseline order.  (Keep-alive markers may sit between two blocks; after a
+                # block was printed the runner continues a marker segment of the same layer
+                # without repeating its "[Parallel tests running in" header - cosmetic.)
+                pos = 0
+                ok = True
+                for l in order:
+                    i = ptext.find(kids[l], pos)
+                    if i < 0:
+                        ok = False
+                        break
+                    pos = i + len(kids[l])
+                if not ok:
                     got_order = [x for x in C.RUNNING_RE.findall(ptext) if x in kids]
                     if got_order != order:
                         viols.append(C.viol('C06/block-order/' + tag,
